@@ -47,7 +47,7 @@ def toks_str(ts):
 
 
 class RealEngine:
-    def __init__(self, kind: str, accum_allowed: bool, gdp: bool, sigma: float, clip: float, n_tokens: int, noise_mode="count", acct="auto", via_engine=False):
+    def __init__(self, kind: str, accum_allowed: bool, gdp: bool, sigma: float, clip: float, n_tokens: int, noise_mode="count", acct="auto", via_engine=False, clipping="flat"):
         from opacus.accountants import GaussianAccountant, RDPAccountant, PRVAccountant
         from opacus.optimizers import DPOptimizer
         from opacus.optimizers.optimizer_fast_gradient_clipping import DPOptimizerFastGradientClipping
@@ -68,7 +68,8 @@ class RealEngine:
             self.pe = PrivacyEngine(accountant=acct)
             ds = torch.utils.data.TensorDataset(torch.zeros(1000, self.d), torch.zeros(1000))
             dl = torch.utils.data.DataLoader(ds, batch_size=1)
-            kw = dict(module=base, optimizer=self.inner, data_loader=dl, noise_multiplier=sigma, max_grad_norm=clip,
+            kw = dict(module=base, optimizer=self.inner, data_loader=dl, noise_multiplier=sigma,
+                      max_grad_norm=([clip] if clipping == "per_layer" else clip), clipping=clipping,
                       loss_reduction="sum", poisson_sampling=not accum_allowed)
             if kind == "std":
                 self.model, self.opt, _ = self.pe.make_private(**kw)
@@ -84,8 +85,9 @@ class RealEngine:
                 self.model = GradSampleModuleFastGradientClipping(base, loss_reduction="sum", max_grad_norm=clip, use_ghost_clipping=True)
             if not accum_allowed:
                 self.model.forbid_grad_accumulation()
-            cls = DPOptimizer if kind == "std" else DPOptimizerFastGradientClipping
-            self.opt = cls(self.inner, noise_multiplier=sigma, max_grad_norm=clip, expected_batch_size=None, loss_reduction="sum")
+            from opacus.optimizers import DPPerLayerOptimizer
+            cls = (DPPerLayerOptimizer if clipping == "per_layer" else DPOptimizer) if kind == "std" else DPOptimizerFastGradientClipping
+            self.opt = cls(self.inner, noise_multiplier=sigma, max_grad_norm=([clip] if (clipping == "per_layer" and kind == "std") else clip), expected_batch_size=None, loss_reduction="sum")
             self.acct = {"gdp": GaussianAccountant, "rdp": RDPAccountant, "prv": PRVAccountant}[acct]()
             self.opt.attach_step_hook(self.acct.get_optimizer_hook_fn(sample_rate=Q))
             if kind == "ghost":
